@@ -168,12 +168,12 @@ def pi_oracle(spec, X, y, S, min_gap=1e-6):
     k = int(spec["kw"].get("k", 1))
     Xr, yr = cur_residuals(spec, X, y, S)
     if spec["cls"] == "CUR":
-        U, s, Vt = np.linalg.svd(Xr, full_matrices=True)
+        if k > min(Xr.shape):
+            return None, False
+        U, s, Vt = np.linalg.svd(Xr, full_matrices=False)  # thin: the top-k vectors are all that is needed (k <= min(n, m))
         sv = np.zeros(max(Xr.shape))
         sv[: len(s)] = s
         V = U if axis == 0 else Vt.T
-        if k > len(s):
-            return None, False
         gap = (sv[k - 1] - (sv[k] if k < len(sv) else 0.0)) / max(sv[0], 1e-300)
         pi = (V[:, :k] ** 2).sum(axis=1)
         return pi, bool(gap >= min_gap and sv[0] > 0)
